@@ -655,7 +655,7 @@ func (e *Env) evalIndex(n EIndex) TV {
 		i := e.coerce(e.eval(n.I, types.Typ[types.Int]), types.Typ[types.Int])
 		it := vc.convertIdx(i)
 		hv := vc.arrHeapVar(u.Elem())
-		return TV{term: fmt.Sprintf("(select (select %s (sref %s)) %s)", e.st.get(hv), base.term, vc.addInt(fmt.Sprintf("(soff %s)", base.term), it)), typ: u.Elem()}
+		return TV{term: fmt.Sprintf("(select (select %s (sref %s)) %s)", e.st.get(hv), base.term, vc.absIdx(base.term, it)), typ: u.Elem()}
 	case *types.Array:
 		i := e.coerce(e.eval(n.I, types.Typ[types.Int]), types.Typ[types.Int])
 		return TV{term: fmt.Sprintf("(select %s %s)", base.term, vc.convertIdx(i)), typ: u.Elem()}
@@ -707,6 +707,10 @@ func (e *Env) evalQuant(n EQuant) TV {
 		}
 	}
 	body := e.evalBool(n.Body)
+	var pats []string
+	for _, t := range n.Trig {
+		pats = append(pats, e.eval(t, nil).term)
+	}
 	for k, v := range saved {
 		if v == nil {
 			delete(e.bound, k)
@@ -722,6 +726,9 @@ func (e *Env) evalQuant(n EQuant) TV {
 		}
 	} else if len(ranges) > 0 {
 		body = and(append(ranges, body)...)
+	}
+	if len(pats) > 0 {
+		body = fmt.Sprintf("(! %s :pattern (%s))", body, strings.Join(pats, " "))
 	}
 	return TV{term: fmt.Sprintf("(%s (%s) %s)", q, strings.Join(binders, " "), body), typ: types.Typ[types.Bool]}
 }
@@ -918,7 +925,22 @@ func (e *Env) evalCall(n ECall, hint types.Type) TV {
 	if pd, ok := vc.eng.cs.Preds[id.Name]; ok {
 		return e.predCall(pd, n.Args)
 	}
-	// in-repo pure function of the current package with a contract marked pure
+	// verified in-repo function used as a mathematical function (lemmas: `use fn:NAME`)
+	if fn, fc := vc.eng.pureRepoFunc(id.Name, e.pkg); fn != nil {
+		_ = fc
+		sig := fn.Signature
+		fname := "fn_" + sanitize(id.Name)
+		var sorts, ts []string
+		for i, a := range n.Args {
+			pt := sig.Params().At(i).Type()
+			v := e.coerce(e.eval(a, pt), pt)
+			sorts = append(sorts, vc.sortOf(pt))
+			ts = append(ts, v.term)
+		}
+		rt := sig.Results().At(0).Type()
+		vc.decl("f:"+fname, fmt.Sprintf("(declare-fun %s (%s) %s)", fname, strings.Join(sorts, " "), vc.sortOf(rt)))
+		return TV{term: fmt.Sprintf("(%s %s)", fname, strings.Join(ts, " ")), typ: rt}
+	}
 	e.fail("unknown function %s", id.Name)
 	return TV{}
 }
